@@ -90,7 +90,7 @@ fn searcher_lines(m: &RegexMatcher, o: &Opts, input: &[u8], slow: bool, invert: 
 fn layer1_pair(pats: &[&str], o: &Opts, acc: &mut L1) {
     acc.pairs += 1;
     let Ok(real) = o.build(pats) else { return };
-    let Ok((sh, _)) = spec_hir(pats, o) else { return };
+    let Ok((sh, _)) = spec_hir_with(pats, o, false) else { return };
     acc.accepted += 1;
     let key = |what: &str| format!("{} | {} | {}", what, o.show(), pats.join(" -e "));
     let forbidden = o.forbidden_in_match();
@@ -126,7 +126,14 @@ fn layer1_pair(pats: &[&str], o: &Opts, acc: &mut L1) {
             input.push(o.term_bytes().first().copied().unwrap_or(b'\n'));
             let real_says = searcher_lines(&real, o, &input, false, false, 0).map(|l| !l.is_empty()).ok();
             if spec_says.is_some() && real_says.is_some() && spec_says != real_says {
-                acc.disc.push((None, key("line-verdict-differs-from-pattern-as-written"), json!({
+                // known finding: under --null-data the anchors still match at \n
+                let cf = if o.lt == Lt::Nul {
+                    spec_hir_with(pats, o, true).ok().and_then(|(h, _)| spec_regex(&h)).map(|r| r.is_match(&w.line[..]))
+                } else {
+                    None
+                };
+                let finding = if cf.is_some() && cf == real_says { Some("null-data-anchors-match-at-line-feed") } else { None };
+                acc.disc.push((finding, key("line-verdict-differs-from-pattern-as-written"), json!({
                     "kind": "spec-vs-built", "patterns": pats, "opts": c11::opts_json(o), "line": esc(&w.line),
                     "as_written_matches": spec_says, "search_reports_line": real_says,
                 })));
@@ -337,8 +344,9 @@ fn layer2(tier: Tier, total: &mut L2) {
         |acc, wi| {
             let (pi, o, invert) = work[wi];
             let pat = L2_PATTERNS[pi];
-            let (Ok(real), Ok((sh, _))) = (o.build(&[pat]), spec_hir(&[pat], &o)) else { return };
+            let (Ok(real), Ok((sh, _))) = (o.build(&[pat]), spec_hir_with(&[pat], &o, false)) else { return };
             let Some(sr) = spec_regex(&sh) else { return };
+            let sr_cf = if o.lt == Lt::Nul { spec_hir_with(&[pat], &o, true).ok().and_then(|(h, _)| spec_regex(&h)) } else { None };
             let forbidden = o.forbidden_in_match();
             let term = o.term_bytes()[0];
             let tterm = match o.lt {
@@ -409,7 +417,20 @@ fn layer2(tier: Tier, total: &mut L2) {
                                 || expect[i].map_or(false, |ex| s.contains(&n) != ex || f.contains(&n) != ex);
                             !differs || std::str::from_utf8(&input[lines[i].0..lines[i].1]).is_err()
                         });
-                        let finding = if uni_wb && differing_lines_invalid {
+                        // known finding: under --null-data the anchors still
+                        // match at \n inside a record — attributed iff both
+                        // paths agree with each other and with the reference
+                        // whose anchors do the same
+                        let nul_lf = sr_cf.as_ref().map_or(false, |cf| {
+                            f == s
+                                && lines.iter().enumerate().all(|(i, &(st, en))| {
+                                    let l = strip(&input[st..en], tterm);
+                                    l.iter().any(|b| forbidden.contains(b)) || s.contains(&(i as u64 + 1)) == (cf.is_match(l) != invert)
+                                })
+                        });
+                        let finding = if nul_lf {
+                            Some("null-data-anchors-match-at-line-feed")
+                        } else if uni_wb && differing_lines_invalid {
                             Some("unicode-word-boundary-next-to-invalid-utf8")
                         } else if only_crlf {
                             Some("crlf-match-between-cr-and-lf")
@@ -527,8 +548,9 @@ fn layer3(tier: Tier) -> L3 {
             if let Some(s) = second {
                 pl.push(s);
             }
-            let Ok((sh, _)) = spec_hir(&pl, &o) else { return };
+            let Ok((sh, _)) = spec_hir_with(&pl, &o, false) else { return };
             let Some(sr) = spec_regex(&sh) else { return };
+            let sr_cf = if o.lt == Lt::Nul { spec_hir_with(&pl, &o, true).ok().and_then(|(h, _)| spec_regex(&h)) } else { None };
             let invert = fs.contains(&"-v");
             let forbidden = o.forbidden_in_match();
             let set = if nul { &nul_files } else { &files };
@@ -579,8 +601,12 @@ fn layer3(tier: Tier) -> L3 {
                 let ok = if status == 2 { false } else { got == want && (status == 0) == !want.is_empty() };
                 if !ok && status != 2 && r.1.len() < 100 {
                     let only_crlf = o.lt == Lt::Crlf && want.iter().all(|n| got.contains(n));
+                    let nul_lf = sr_cf.as_ref().map_or(false, |cf| {
+                        let want_cf: Vec<u64> = lines.iter().enumerate().filter(|(_, &(s, e))| cf.is_match(strip(&content[s..e], tterm)) != invert).map(|(i, _)| i as u64 + 1).collect();
+                        got == want_cf
+                    });
                     r.1.push((
-                        if only_crlf { Some("crlf-match-between-cr-and-lf") } else { None },
+                        if nul_lf { Some("null-data-anchors-match-at-line-feed") } else if only_crlf { Some("crlf-match-between-cr-and-lf") } else { None },
                         format!("cli | {} | {} | {}", fs.join(" "), pl.join(" -e "), name),
                         json!({"kind":"cli","flags":fs,"patterns":pl,"file":name,"content":esc(content),"printed_lines":got,"expected_lines":want,"status":status,
                                "stderr": String::from_utf8_lossy(&out.stderr)}),
@@ -746,7 +772,7 @@ fn replay(path: &str) -> ! {
             let invert = v["invert"].as_bool().unwrap_or(false);
             let fast = searcher_lines(&real, &o, &input, false, invert, v["strategy"].as_u64().unwrap_or(0) as u8);
             let slow = searcher_lines(&real, &o, &input, true, invert, 0);
-            let (sh, _) = spec_hir(&refs, &o).unwrap();
+            let (sh, _) = spec_hir_with(&refs, &o, false).unwrap();
             let sr = spec_regex(&sh).unwrap();
             let term = o.term_bytes()[0];
             let tterm = match o.lt {
